@@ -41,6 +41,10 @@ func randCase(c *core.Ctx, label, s string) string {
 	return string(b)
 }
 
+// header fields whose presence or value is itself an input of the policy (or of
+// payload integrity), which dictionary-drawn extra headers must not disturb
+var semanticHeaders = []string{"Content-Type", "Cache-Control", "Expires", "Digest", "MI-Draft2", "Content-Encoding", "Signature", "Variants", "Variant-Key", "X-Uniq"}
+
 func canonNames(l *gen.LSXG) map[string]bool {
 	m := map[string]bool{}
 	for _, h := range l.RespHeaders {
@@ -135,7 +139,9 @@ func TestPolicy(t *testing.T) {
 				case "req-header":
 					if l.Version != "1b3" {
 						var name string
-						switch c.Pick("req.class", 3) {
+						switch c.Pick("req.class", 4) {
+						case 3:
+							name = c.PickDict("req.dict", []string{"X-Plain-Req"}, core.HeaderNameRe, semanticHeaders...)
 						case 0:
 							name = bannedReq[c.Pick("req.name", len(bannedReq))]
 						case 1:
@@ -150,9 +156,13 @@ func TestPolicy(t *testing.T) {
 					}
 				case "resp-header":
 					var name string
-					switch c.Pick("resp.class", 3) {
+					switch c.Pick("resp.class", 4) {
 					case 0:
 						name = bannedResp[c.Pick("resp.name", len(bannedResp))]
+					case 3:
+						// any header-name-shaped string literal of the tree under test (minus the fields
+						// that carry policy input themselves); the reference's lists decide the verdict
+						name = c.PickDict("resp.dict", []string{"X-Plain"}, core.HeaderNameRe, semanticHeaders...)
 					case 1:
 						name = lookalikeResp[c.Pick("resp.look", len(lookalikeResp))]
 					default: // banned as a REQUEST field, harmless in a response
@@ -186,7 +196,7 @@ func TestPolicy(t *testing.T) {
 					n := c.Int("cc.n", 1, 3)
 					var parts []string
 					for j := 0; j < n; j++ {
-						parts = append(parts, dirs[c.Pick("cc.dir", len(dirs))])
+						parts = append(parts, c.PickDict("cc.dir", dirs, `^[a-z][a-z0-9-]{1,24}$`))
 					}
 					p.CacheControl = strings.Join(parts, c.PickStr("cc.sep", ",", ", ", " , "))
 					var hs []gen.HV
